@@ -48,6 +48,9 @@ type joinBase struct {
 	lookupRow   Row
 	joinType    joinType
 	optimized   bool
+	// reqCols is the columns of a ReqUnique.
+	// source1 is only set up to Lookup (or fall back to Select) on these.
+	reqCols []string
 }
 
 type Join struct {
@@ -387,6 +390,7 @@ func (jn *Join) setApproach(req Require, approach any, tran QueryTran) {
 	jn.source1 = SetApproach(jn.source1, ap.req1, tran)
 	jn.source2 = SetApproach(jn.source2, ap.req2, tran)
 	jn.header = jn.getHeader()
+	jn.setReqCols(req)
 }
 
 func (jn *Join) getNrows() (int, int) {
@@ -523,7 +527,7 @@ func (jl *joinLike) splitSelect(sels Sels) (sel1, sel2 Sels) {
 func (jn *Join) Lookup(th *Thread, sels Sels) Row {
 	// fmt.Println(jn.strategy(), "Lookup", cols, unpack(vals))
 	jn.nlooks++
-	sel1, sel2 := jn.splitSelect(sels)
+	sel1, sel2 := jn.splitSelect(jn.reqSels(sels))
 	if jn.lookupFallback(sel1) {
 		jn.rewind()
 		jn.source1.Select(sel1)
@@ -551,6 +555,35 @@ func (jn *Join) Lookup(th *Thread, sels Sels) Row {
 	}
 	dbg.Assert(jn.equalBy(th, jn.st, row1, row2))
 	return JoinRows(row1, row2)
+}
+
+func (jb *joinBase) setReqCols(req Require) {
+	jb.reqCols = nil
+	if req.use == ReqUnique {
+		jb.reqCols = req.cols
+	}
+}
+
+// reqSels removes extra sels i.e. not on the ReqUnique columns.
+// Extra sels are ignored (see Query.Lookup).
+// They must not be passed on to the sources or used to choose between
+// Lookup and the Select fallback because the sources were not set up for them.
+func (jb *joinBase) reqSels(sels Sels) Sels {
+	if jb.reqCols == nil {
+		return sels
+	}
+	for i, sel := range sels {
+		if !slices.Contains(jb.reqCols, sel.col) {
+			result := slices.Clone(sels[:i])
+			for _, sel := range sels[i+1:] {
+				if slices.Contains(jb.reqCols, sel.col) {
+					result = append(result, sel)
+				}
+			}
+			return result
+		}
+	}
+	return sels
 }
 
 func (jb *joinBase) lookupFallback(sel1 Sels) bool {
@@ -739,6 +772,7 @@ func (lj *LeftJoin) setApproach(req Require, approach any, tran QueryTran) {
 	lj.source2 = SetApproach(lj.source2, ap.req2, tran)
 	lj.empty2 = make(Row, len(lj.source2.Header().Fields))
 	lj.header = lj.getHeader()
+	lj.setReqCols(req)
 }
 
 func (lj *LeftJoin) getNrows() (int, int) {
@@ -844,7 +878,7 @@ func (lj *LeftJoin) Select(sels Sels) {
 func (lj *LeftJoin) Lookup(th *Thread, sels Sels) Row {
 	lj.nlooks++
 	defer lj.Select(nil)
-	sel1, sel2 := lj.splitSelect(sels)
+	sel1, sel2 := lj.splitSelect(lj.reqSels(sels))
 	lj.sel2 = sel2
 	if lj.lookupFallback(sel1) {
 		// log.Println("INFO LeftJoin Lookup fallback to Select & Get")
